@@ -68,6 +68,20 @@ type c18Tag struct {
 	call    *ssa.Call
 	ret     *c18Node // return node in the callee frame (nil when the callee has a single return)
 	nilness int8     // error result: 0 not known, 1 nil, 2 non-nil
+	// alias: a phi that, on this path, holds the error result of the call (`err := a(); if err == nil
+	// { err = b() }; if err == nil …`: at each merge the variable is the result of the call the path came from)
+	alias *ssa.Phi
+}
+
+// isErr: v (already chased through variable cells) is the error result the tag speaks about.
+func (t c18Tag) isErr(v ssa.Value) bool {
+	if t.call == nil || v == nil {
+		return false
+	}
+	if v == c18ErrValue(t.call) {
+		return true
+	}
+	return t.alias != nil && v == ssa.Value(t.alias)
 }
 
 func (t c18Tag) key() string {
@@ -75,7 +89,7 @@ func (t c18Tag) key() string {
 	if t.ret != nil {
 		id = t.ret.id
 	}
-	return fmt.Sprintf("%p/%d/%d", t.call, id, t.nilness)
+	return fmt.Sprintf("%p/%d/%d/%p", t.call, id, t.nilness, t.alias)
 }
 
 type c18Node struct {
@@ -123,6 +137,18 @@ type c18Graph struct {
 	counters    map[*ssa.Function]map[*ssa.BasicBlock][]*c18Counter
 	stateTypes  map[string]bool
 	mattersMemo map[*ssa.Function]bool
+	// branch nodes whose condition the graph could not correlate with the path (both branches kept
+	// although one may be infeasible): findings downstream of them are not established
+	imprecise []*c18Node
+}
+
+// downstreamOfImprecise: the nodes at or after an uncorrelated branch.
+func (g *c18Graph) downstreamOfImprecise() map[*c18Node]bool {
+	out := g.reach(g.imprecise)
+	for _, n := range g.imprecise {
+		out[n] = true
+	}
+	return out
 }
 
 // target: the function a call instruction runs: the static callee, or the one function a
@@ -702,7 +728,7 @@ func (g *c18Graph) retKind(n *c18Node) (kind string, val ssa.Value) {
 	}
 	kind = c18ReturnErrKind(ret, g.closureWrites(n.fr.fn))
 	val = c18RetRoot(ret, g.closureWrites(n.fr.fn))
-	if kind == "unknown" && n.tag.call != nil && n.tag.nilness != 0 && val != nil && val == c18ErrValue(n.tag.call) {
+	if kind == "unknown" && n.tag.nilness != 0 && n.tag.isErr(val) {
 		if n.tag.nilness == 1 {
 			kind = "nil"
 		} else {
@@ -734,7 +760,24 @@ func (g *c18Graph) expand(n *c18Node) {
 				return c18Tag{}
 			}
 		}
-		return n.tag
+		// a phi of `to` whose value on this edge is the call's error result is that result on this path
+		tag := n.tag
+		idx := -1
+		for i, p := range to.Preds {
+			if p == blk {
+				idx = i
+			}
+		}
+		for _, x := range to.Instrs {
+			phi, ok := x.(*ssa.Phi)
+			if !ok {
+				break
+			}
+			if idx >= 0 && idx < len(phi.Edges) && c18IsErrorType(phi) && n.tag.isErr(c18Root(phi.Edges[idx])) {
+				tag.alias = phi
+			}
+		}
+		return tag
 	}
 	switch in := n.in.(type) {
 	case *ssa.Call:
@@ -750,6 +793,19 @@ func (g *c18Graph) expand(n *c18Node) {
 				g.edge(n, g.node(c, f.Blocks[0].Instrs[0], false, c18Tag{}), -1)
 				return
 			}
+		}
+		if tagNil, tagErr, ok := g.opSplit(in); ok {
+			// the error of this file-system call flows into a merged error variable: follow the
+			// success and the failure continuation separately so that later tests of the variable are decided
+			i := instrIndex(n.in)
+			if i+1 < len(blk.Instrs) {
+				errv := c18ErrValue(in)
+				for _, tg := range []c18Tag{tagNil, tagErr} {
+					e := g.edge(n, g.node(fr, blk.Instrs[i+1], false, tg), -1)
+					e.hasFact, e.factFr, e.factVal, e.factNil = true, fr, errv, tg.nilness == 1
+				}
+			}
+			return
 		}
 		next(n, n.tag)
 	case *ssa.Jump:
@@ -790,10 +846,14 @@ func (g *c18Graph) expand(n *c18Node) {
 				}
 				isNil = cmp.Op == token.EQL
 			}
-			if val != nil && n.tag.call != nil && n.tag.nilness != 0 && val == c18ErrValue(n.tag.call) {
+			if n.tag.nilness != 0 && n.tag.isErr(val) {
 				if isNil != (n.tag.nilness == 1) {
 					continue // infeasible: the callee returned the other kind on this path
 				}
+			} else if phi, ok := val.(*ssa.Phi); ok && c18IsErrorType(phi) && c18MergesCalls(phi) {
+				// an error variable that merges the results of several calls is tested and the path does
+				// not tell which call it holds: findings that depend on this branch are not established
+				g.imprecise = append(g.imprecise, n)
 			}
 			tf := g.enterBlock(fr, blk, blk.Succs[b])
 			e := g.edge(n, g.node(tf, blk.Succs[b].Instrs[0], false, tagInto(blk.Succs[b])), b)
@@ -855,6 +915,57 @@ func (g *c18Graph) expand(n *c18Node) {
 	default:
 		next(n, n.tag)
 	}
+}
+
+// opSplit: call is a modelled file-system operation whose error result flows into a phi (an error
+// variable assigned on several paths): the two tags for "returned nil" / "returned an error".
+func (g *c18Graph) opSplit(call *ssa.Call) (c18Tag, c18Tag, bool) {
+	obj := calleeObj(call)
+	if obj == nil || obj.Pkg() == nil {
+		return c18Tag{}, c18Tag{}, false
+	}
+	if _, ok := c18Mutators[c18FullName(obj)]; !ok {
+		return c18Tag{}, c18Tag{}, false
+	}
+	errv := c18ErrValue(call)
+	if errv == nil {
+		return c18Tag{}, c18Tag{}, false
+	}
+	intoPhi := false
+	for _, r := range c18Refs(errv) {
+		if _, ok := r.(*ssa.Phi); ok {
+			intoPhi = true
+		}
+	}
+	if !intoPhi {
+		return c18Tag{}, c18Tag{}, false
+	}
+	return c18Tag{call: call, nilness: 1}, c18Tag{call: call, nilness: 2}, true
+}
+
+// c18MergesCalls: the phi web of v has at least two call results among its leaves.
+func c18MergesCalls(phi *ssa.Phi) bool {
+	seen := map[*ssa.Phi]bool{}
+	n := 0
+	var walk func(p *ssa.Phi)
+	walk = func(p *ssa.Phi) {
+		if seen[p] {
+			return
+		}
+		seen[p] = true
+		for _, e := range p.Edges {
+			e = c18Root(e)
+			if q, ok := e.(*ssa.Phi); ok {
+				walk(q)
+				continue
+			}
+			if c18IsCallResult(e) {
+				n++
+			}
+		}
+	}
+	walk(phi)
+	return n >= 2
 }
 
 // tagValue: v, read in the caller under the node's tag, is result i of the expanded call: the value
